@@ -372,7 +372,7 @@ def refactor(base, props):
 
 
 _NEUTRAL_BASES = {
-    "neutral-r2": ["C01", "C02", "C03", "C05", "C10", "C12"],
+    "neutral-r2": ["C01", "C02", "C03", "C05", "C06", "C10", "C12"],
     "neutral-r3": ["C03", "C05", "C06"],
     "neutral-r4": ["C04", "C06", "C07", "C08", "C16", "C17"],
     "neutral-r5": ["C18", "C19"],
@@ -396,7 +396,12 @@ _CROSS = {
                                    "*future_consumption.entry(idx).or_insert(Decimal::ZERO) += matched_qty_at_sell_time;")], ["R3:", "R6:"]))],
     "C03": [on("neutral-r3", mut("r3+cost-weight", "same-day numerator weighted by the lot's full amount",
                                  [(LED, "                holdings.total_cost += available * lot.adjusted_unit_cost();",
-                                   "                holdings.total_cost += lot.amount * lot.adjusted_unit_cost();")], ["R4:"]))],
+                                   "                holdings.total_cost += (available + lot.consumed) * lot.adjusted_unit_cost();")], ["R4:"]))],
+    "C06": [on("neutral-r2", mut("r2+scan-first-only", "loop-form same-day total stops at the first sale",
+                                 [(BNB, "            total_sold += *amount;\n", "            total_sold += *amount;\n            break;\n")], ["R3:"]))],
+    "C01": [on("neutral-r2", mut("r2+other-ticker-ratio", "pure ratio accumulator applied before the ticker test",
+                                 [(BNB, "        // Must be same ticker\n        if tx.ticker != sell_tx.ticker {\n            continue;\n        }\n", ""),
+                                  (BNB, "            Operation::Buy {", "            Operation::Buy { .. } if tx.ticker != sell_tx.ticker => {}\n            Operation::Buy {")], ["R8:"]))],
     "C07": [on("neutral-r4", mut("r4+range-pattern-2200", "range pattern admits years up to 2200",
                                  [(MODELS, "            MIN_TAX_YEAR..=MAX_TAX_YEAR => Ok(Self(start_year)),", "            MIN_TAX_YEAR..=2200 => Ok(Self(start_year)),")], ["R2:"]))],
     "C08": [on("neutral-r4", mut("r4+convert-wrong-field", "closure-converted fees taken from price",
